@@ -21,7 +21,6 @@ EntityManager::EntityManager(World& world):
         locations_{world.memoryManager()},
         marked_for_delete_{world.memoryManager()},
         this_world_id_{world.id()},
-        world_version_{world.version()},
         archetypes_{world.memoryManager()} {
     MUSTACHE_PROFILER_BLOCK_LVL_0(__FUNCTION__ );
 }
@@ -112,11 +111,14 @@ void EntityManager::update() {
     if (isLocked()) {
         throw std::runtime_error("Can not update locked EntityManager");
     }
-    world_version_ = world_.version();
     for (auto entity : marked_for_delete_) {
         destroyNow(entity);
     }
     marked_for_delete_.clear();
+}
+
+WorldVersion EntityManager::worldVersion() const noexcept {
+    return world_.version();
 }
 
 void EntityManager::clearArchetype(Archetype& archetype) {
